@@ -1165,19 +1165,23 @@ func runScenario(t *tools, name string, sc scenario, drv *Nadrv) *caseResult {
 			// spells its locking: (a) the hook that starts a second invocation first probes the flock
 			// on policies/LOCK itself -- if somebody holds it, the second invocation must end with exit 1
 			// without having run a single writing command; (b) the writing spans of the outer and of a
-			// nested invocation (first writing command .. last command, from the two traces) must not
-			// overlap.
+			// invocation (first writing command .. last command / end of its orphaned child, from the
+			// trace) must not contain a second invocation that writes or ends with anything but exit 1.
 			of, ot, ook := r.writerSpan(t.gitFn)
 			for _, n := range r.Nested {
-				nf, nt, nok := n.writerSpan(t.gitFn)
+				_, _, nok := n.writerSpan(t.gitFn)
+				if len(n.Times) == 0 {
+					continue
+				}
+				nf, nt := n.Times[0], n.Times[len(n.Times)-1] // whole life of the second invocation
 				switch {
 				case n.LockHeld == "1" && (nok || n.Exit != "1" && n.Exit != "killed"):
 					add(evNo, fnd("second_invocation_worked_while_locked",
 						"a second invocation started while the flock on policies/LOCK was held did not stop with exit 1 before its first writing command (exit "+n.Exit+")",
 						"via", "lock_probe", "nested_exit", n.Exit, "nested_wrote", nok))
-				case ook && nok && of < nf && nt < ot:
+				case ook && of < nf && nt < ot && (nok || n.Exit != "1" && n.Exit != "killed"):
 					add(evNo, fnd("second_invocation_worked_while_locked",
-						"a second invocation ran writing commands between two writing commands of the first one (or before its orphaned child had finished)",
+						"a second invocation that lived between two writing commands of the first one (or before its orphaned child had finished) did not stop with exit 1 before its first writing command (exit "+n.Exit+")",
 						"via", "trace_overlap", "nested_exit", n.Exit, "nested_wrote", nok))
 				}
 				if n.LockHeld != "" {
